@@ -92,6 +92,12 @@ def run(case):
                 for t in select(t for t in Tag):
                     objs[('T', (t.box.shelf.room, t.box.shelf.no, t.box.pos))] = t
 
+                loaded = {'shelves': set(k for (t_, k) in objs if t_ == 'S'), 'boxes': set(k for (t_, k) in objs if t_ == 'B'),
+                          'items': set(k for (t_, k) in objs if t_ == 'I'), 'tags': set(k for (t_, k) in objs if t_ == 'T')}
+                want = {'shelves': cur['shelves'], 'boxes': cur['boxes'], 'items': set(cur['items']), 'tags': set(cur['tags'])}
+                if loaded != want:
+                    raise Violation('db', 'session %d starts with rows %r, the program committed %r' % (si, loaded, want))
+
                 def fail(cat, msg):
                     raise Violation(cat, '%s [session %d after %s]' % (msg, si, trace[-6:]))
 
